@@ -41,7 +41,7 @@ type c08Case struct {
 	DeadlineNs  int64  `json:"deadline_ns,omitempty"`
 }
 
-var c08Comps = []string{"retry", "retry", "retry>cb", "retry>bh", "fallback>retry", "retry>fallback", "hedge", "retry>hedge", "hedge>retry", "rl!>retry", "retry>rl!", "bh!>retry", "retry>bh!", "rl!", "hedge~", "retry>hedge~", "T>retry"}
+var c08Comps = []string{"retry", "retry", "retry>cb", "retry>bh", "fallback>retry", "retry>fallback", "hedge", "retry>hedge", "hedge>retry", "rl!>retry", "retry>rl!", "bh!>retry", "retry>bh!", "rl!", "hedge~", "retry>hedge~", "T>retry", "retry>T", "retry>T"}
 
 func genC08(r *rand.Rand) c08Case {
 	cs := c08Case{Comp: c08Comps[r.IntN(len(c08Comps))], Source: vk.Pick(r, "ctx", "ctx", "deadline", "timeout", "async", "async")}
@@ -50,7 +50,15 @@ func genC08(r *rand.Rand) c08Case {
 	cs.FailN = r.IntN(3)
 	cs.Micro = int64(r.IntN(200)) * 1000
 	waiting := strings.Contains(cs.Comp, "!")
-	switch r.IntN(7) {
+	switch r.IntN(8) {
+	case 7:
+		// synchronously from the retry policy's OnRetry listener: after the retry was initialised, before whatever the retry
+		// policy wraps (a Timeout, a hedge policy, the function) sets up the next attempt
+		cs.Trigger = "onretry"
+		cs.K = 1 + r.IntN(max(cs.FailN, 1))
+		if cs.FailN == 0 {
+			cs.FailN = 1
+		}
 	case 6:
 		// synchronously from inside the retry policy's OnFailure listener: between the attempt's return and RecordResult
 		cs.Trigger = "onfailure"
@@ -111,8 +119,9 @@ func genC08(r *rand.Rand) c08Case {
 			cs.K, cs.BlockAt, cs.LongDelayAt = 1, 1, 0
 		}
 	}
-	if cs.Trigger == "onfailure" && (cs.Source == "deadline" || cs.Source == "timeout" || !strings.Contains(cs.Comp, "retry")) {
+	if (cs.Trigger == "onfailure" || cs.Trigger == "onretry") && (cs.Source == "deadline" || cs.Source == "timeout" || !strings.Contains(cs.Comp, "retry")) {
 		cs.Trigger = "sched"
+		cs.LongDelayAt = cs.K
 	}
 	if cs.Source == "timeout" && cs.Trigger == "before" {
 		cs.Trigger = "time"
@@ -174,6 +183,12 @@ func c08Run(cs c08Case, twin bool) *c08Obs {
 	var syncCancel func()
 	rb.OnFailure(func(failsafe.ExecutionEvent[int]) {
 		if int(failCount.Add(1)) == cs.K && cs.Trigger == "onfailure" && !twin && syncCancel != nil {
+			syncCancel()
+		}
+	})
+	var retryCount atomic.Int64
+	rb.OnRetry(func(failsafe.ExecutionEvent[int]) {
+		if int(retryCount.Add(1)) == cs.K && cs.Trigger == "onretry" && !twin && syncCancel != nil {
 			syncCancel()
 		}
 	})
@@ -327,7 +342,7 @@ func c08Run(cs c08Case, twin bool) *c08Obs {
 		ar = ex.GetWithExecutionAsync(fn)
 	}
 	close(arReady)
-	if !twin && cs.Trigger != "onfailure" && (cs.Source == "ctx" && cs.Trigger != "before" || cs.Source == "async") {
+	if !twin && cs.Trigger != "onfailure" && cs.Trigger != "onretry" && (cs.Source == "ctx" && cs.Trigger != "before" || cs.Source == "async") {
 		go func() {
 			defer close(ctrlDone)
 			if cs.Trigger != "before" {
@@ -370,7 +385,7 @@ func c08Run(cs c08Case, twin bool) *c08Obs {
 }
 
 func checkC08(rep *vk.Report) {
-	rep.Rule = "scenario = composition containing a retry or hedge policy (plus breaker, free or full bulkhead, exhausted rate limiter, fallback outside or inside) x cancellation source (context cancel, context deadline, enclosing Timeout, async ExecutionResult.Cancel) x event-triggered firing point (before the call, on the k-th function entry with the function then blocking, on the k-th OnRetryScheduled i.e. inside a 3s retry delay, at the k-th function exit i.e. between recording and the next attempt, after a micro delay while waiting for a limiter/bulkhead permit) x sync/async, with yield points between Cancel's two steps and before InitializeRetry perturbed. Each scenario is also run un-cancelled with zero delays (twin). Oracles: result is the cause's error (errors.Is) or exactly the twin's result; no fallback invocation; <=1 function entry after the cancel marker (taken after cancel returned / by a watcher on Done); blocking attempts observe the cancellation; completion earlier than marker + the wait being interrupted (3s delay, 1s limiter, 3s bulkhead). Plus Retry(Hedge(fn)) rounds that really hedge and fail, cancelled (context, context with a custom cause, async Cancel) inside the following 3s retry delay: the caller must get the cause. Plus a high-volume stress without yield hooks: Cancel at PRNG instants on endlessly retrying async executions must always give ErrExecutionCanceled. Non-trivial: the cancellation landed before completion; distinct by (composition, source, trigger, k, async, where it landed)."
+	rep.Rule = "scenario = composition containing a retry or hedge policy (plus breaker, free or full bulkhead, exhausted rate limiter, fallback outside or inside) x cancellation source (context cancel, context deadline, enclosing Timeout, async ExecutionResult.Cancel) x event-triggered firing point (before the call, on the k-th function entry with the function then blocking, on the k-th OnRetryScheduled i.e. inside a 3s retry delay, at the k-th function exit i.e. between recording and the next attempt, synchronously from the k-th OnFailure or OnRetry listener of the retry policy (also with a never-expiring Timeout inside or outside the retry policy), after a micro delay while waiting for a limiter/bulkhead permit) x sync/async, with yield points between Cancel's two steps and before InitializeRetry perturbed. Each scenario is also run un-cancelled with zero delays (twin). Oracles: result is the cause's error (errors.Is) or exactly the twin's result; no fallback invocation; <=1 function entry after the cancel marker (taken after cancel returned / by a watcher on Done); blocking attempts observe the cancellation; completion earlier than marker + the wait being interrupted (3s delay, 1s limiter, 3s bulkhead). Plus Retry(Hedge(fn)) rounds that really hedge and fail, cancelled (context, context with a custom cause, async Cancel) inside the following 3s retry delay: the caller must get the cause. Plus a high-volume stress without yield hooks: Cancel at PRNG instants on endlessly retrying async executions must always give ErrExecutionCanceled. Non-trivial: the cancellation landed before completion; distinct by (composition, source, trigger, k, async, where it landed)."
 	rep.Assumptions = []string{
 		"the cancel marker is never earlier than the true cancellation instant, so counting later function entries cannot over-count",
 		"promptness is judged only against the configured waits: completion >= marker + wait is a violation, between half and full is inconclusive",
@@ -395,7 +410,7 @@ func checkC08(rep *vk.Report) {
 	failsafe.VerifSetYield(nil)
 	cancelStress(rep, "C08", 50000000, scale(rep, 30000, 500000))
 	reportYields(rep)
-	for _, cl := range []string{"landed_inside_function", "landed_in_retry_delay", "landed_in_policy_wait", "landed_at_function_exit", "landed_in_failure_listener", "landed_after_completion", "landed_before_start", "cancelled_in_retry_delay_after_hedged_round"} {
+	for _, cl := range []string{"landed_inside_function", "landed_in_retry_delay", "landed_in_policy_wait", "landed_at_function_exit", "landed_in_failure_listener", "landed_after_completion", "landed_before_start", "landed_in_retry_listener", "cancelled_in_retry_delay_after_hedged_round"} {
 		rep.Require(cl, 10)
 	}
 }
@@ -498,6 +513,8 @@ func c08Scenario(rep *vk.Report, idx int, prop string) {
 			landed = "in_retry_delay"
 		case cs.Trigger == "onfailure":
 			landed = "in_failure_listener"
+		case cs.Trigger == "onretry":
+			landed = "in_retry_listener"
 		case cs.Trigger == "fn.exit":
 			landed = "at_function_exit"
 		case strings.Contains(cs.Comp, "!") && cs.BlockAt == 0:
